@@ -163,7 +163,7 @@ def make_known():
 
 def PROOFS():
     from ..contracts import utils_c, terms_c
-    return [("vf.contracts.utils_c", utils_c.FUNCTIONS), ("vf.contracts.terms_c", terms_c.FUNCTIONS)]
+    return [("vf.contracts.utils_c", utils_c.FUNCTIONS), ("vf.contracts.terms_c", ["formulae.terms.terms.GroupSpecificTerm.eval_new_data"])]
 
 
 def run(report, findings):
